@@ -799,6 +799,7 @@ func goroutinePanicSites(p *Program, g *callgraph.Graph, fn *ssa.Function) (out 
 		path := strings.Join(reach[f], " > ")
 		if InRepo(f) {
 			out = append(out, nilFieldUses(p, f, nilled)...)
+			out = append(out, nilFuncListed(p, f)...)
 		}
 		for _, b := range f.Blocks {
 			for _, in := range b.Instrs {
